@@ -52,6 +52,9 @@ func reqLine(k c08.UKey, value []byte, membership bool, root []byte, proof strin
 	return fmt.Sprintf("%s %s %s %s %s", drv.Hex(k.User), drv.Hex(value), m, drv.Hex(root), proof)
 }
 
+// mutateKeyBits is the key length of the tree whose proofs are being mutated (set by RunSMT per configuration).
+var mutateKeyBits = 160
+
 // mutate produces adversarial variants of an honest proof (token form key:value:bitmask).
 func mutate(o *drv.Out, proof []*lib.Node) (string, []*lib.Node) {
 	r := o.Rng
@@ -71,7 +74,7 @@ func mutate(o *drv.Out, proof []*lib.Node) (string, []*lib.Node) {
 		b[r.Intn(len(b))] ^= byte(1 << uint(r.Intn(8)))
 		return b
 	}
-	switch k := r.Intn(15); k {
+	switch k := r.Intn(17); k {
 	case 0:
 		return "truncate-last", p[:len(p)-1]
 	case 1:
@@ -113,6 +116,17 @@ func mutate(o *drv.Out, proof []*lib.Node) (string, []*lib.Node) {
 	case 11:
 		p[i].Value = nil
 		return "empty-value", p
+	case 15, 16:
+		// two-boundary re-split of a sibling pair at a random level (well-formed pieces only)
+		if levels, ok := pairLevels(proof, mutateKeyBits); ok && len(proof) > 1 {
+			for try := 0; try < 40; try++ {
+				j, d, first := 1+r.Intn(len(proof)-1), r.Intn(41)-20, r.Intn(2)
+				if forged, ok := pairResplit(proof, levels, j, d, first, mutateKeyBits); ok {
+					return fmt.Sprintf("pair-resplit%+d", d), forged
+				}
+			}
+		}
+		return "pair-resplit-none", p
 	case 12:
 		d := []int{-2, -1, 1, 2}[r.Intn(4)]
 		if resplit(p, 0, d) {
@@ -152,6 +166,11 @@ func verifyAndJudge(o *drv.Out, v *Verifier, lim *limiter, n int, root []byte, s
 		lim.fail("C16:foreign-proof-accepted-as-nonmembership", what, replay("verify "+req))
 	case res == "accept" && !tr && foreign:
 		lim.fail("C16:foreign-proof-accepted-as-membership", what, replay("verify "+req))
+	case res == "accept" && !tr && strings.Contains(kind, "pair-resplit") && !st.membership:
+		// KNOWN FINDING: the unframed parent hash lets a sibling pair be re-split at both boundaries (needs framed hashing)
+		lim.fail("C16:forged-proof-accepted-as-nonmembership:sibling-pair-resplit", what, replay("verify "+req))
+	case res == "accept" && !tr && strings.Contains(kind, "pair-resplit"):
+		lim.fail("C16:forged-proof-accepted-as-membership:sibling-pair-resplit", what, replay("verify "+req))
 	case res == "accept" && !tr && !st.membership:
 		lim.fail("C16:forged-proof-accepted-as-nonmembership", what, replay("verify "+req))
 	case res == "accept" && !tr:
@@ -192,6 +211,7 @@ func RunSMT(o *drv.Out, v *Verifier, lim *limiter) {
 	}
 	for _, c := range cfgs {
 		u := c08.NewUniverse(c.n, thorough)
+		mutateKeyBits = c.n
 		for ci := 0; ci < c.cases; ci++ {
 			t, err := c08.NewTree(c.n)
 			if err != nil {
@@ -470,6 +490,7 @@ func Run(o *drv.Out) {
 	lim := &limiter{o: o, seen: map[string]int{}}
 	RunWitnesses(o, v, lim)
 	RunResplitCorpus(o, v, lim)
+	RunPairResplitCorpus(o, v, lim)
 	RunSMT(o, v, lim)
 	RunStore(o, lim)
 	o.Extra["verify_hangs_killed"] = v.Hangs
